@@ -785,6 +785,12 @@ async fn accept(
     }
 }
 
+/// How much of a request body nobody read we read and discard to be able to use a HTTP/1
+/// connection again. With more than this left, the connection is closed after the response.
+const UNREAD_BODY_DISCARD_LIMIT: usize = 4 * 1024 * 1024;
+/// How long we wait for each piece of such a body.
+const UNREAD_BODY_PATIENCE: Duration = Duration::from_secs(5);
+
 /// Handles a single connection. This includes encrypting it, extracting the HTTP header information,
 /// optionally (HTTP/2 & HTTP/3) decompressing them, and passing the request to [`handle_cache()`].
 /// It will also recognize which host should handle the connection.
@@ -937,11 +943,13 @@ pub async fn handle_connection(
 
                 // same as for normal responses: what's left of an unread request body on a
                 // HTTP/1 socket would be read as the next request.
-                if matches!(
-                    request.body(),
-                    application::Body::Http1(body) if body.unread_on_socket()
-                ) {
-                    break;
+                if let application::Body::Http1(body) = request.body_mut() {
+                    if !body
+                        .discard_rest(UNREAD_BODY_DISCARD_LIMIT, UNREAD_BODY_PATIENCE)
+                        .await
+                    {
+                        break;
+                    }
                 }
                 continue;
             }
@@ -974,12 +982,17 @@ pub async fn handle_connection(
             {
                 error!("Got error when writing response: {err:?}");
             }
-            // If nobody read the request body, what's left of it on a HTTP/1 socket would
-            // be read as the next request. Then, the connection can't be used again.
-            let unread_body = matches!(
-                request.body(),
-                application::Body::Http1(body) if body.unread_on_socket()
-            );
+            // If nobody read the whole request body, what's left of it on a HTTP/1 socket would
+            // be read as the next request. We read and discard it (the client may still be
+            // sending it). If that's too much, the connection can't be used again.
+            let unread_body = match request.body_mut() {
+                application::Body::Http1(body) => {
+                    !body
+                        .discard_rest(UNREAD_BODY_DISCARD_LIMIT, UNREAD_BODY_PATIENCE)
+                        .await
+                }
+                _ => false,
+            };
             drop(request);
             unread_body
         };
